@@ -358,11 +358,14 @@ def check_streams(case):
       with dev.cond:
         dev._emit(cmd, 1, ent['local'] if cmd != 'OPEN' else 0, 'x' if cmd in ('CNXN', 'AUTH', 'OPEN') else '')  # pylint: disable=protected-access
       try:
-        ent['stream'].read(length=0, timeout_ms=120)
+        # the packet is already waiting: the bound only matters on a machine too busy to get to it (real time)
+        ent['stream'].read(length=0, timeout_ms=3000)
         got = ('data',)
       except Exception as e:  # pylint: disable=broad-except
         got = ('err', type(e).__name__, str(e)[:60])
-      if got != ('data',) and got[1] != 'AdbProtocolError':
+      if got != ('data',) and got[1] in ('AdbTimeoutError', 'UsbReadFailedError') and dev.out:
+        flags['inconclusive-timeout'] = True      # ran out of (real) time before the packet was even read: decides nothing
+      elif got != ('data',) and got[1] != 'AdbProtocolError':
         # buffered data may legitimately be returned before the illegal packet is reached
         r.bad('C15/streams/illegal-packet-wrong-error/%s' % got[1], '%s: mid-session %s raised %s(%s), expected AdbProtocolError' % (when, cmd, got[1], got[2]))
       elif got == ('data',) and not ''.join(ent['script'].get('wrtes', []))[ent.get('consumed', 0):]:
